@@ -5,28 +5,46 @@ import (
 	rt "github.com/jimsnab/go-redisemu/verifrt"
 )
 
+//go:norace
 func pt(addr any) { rt.Point(rt.OpAtomic, addr, nil) }
 
+//go:norace
 func AddInt32(addr *int32, delta int32) int32     { pt(addr); rt.RaceRW(addr); *addr += delta; return *addr }
+//go:norace
 func AddInt64(addr *int64, delta int64) int64     { pt(addr); rt.RaceRW(addr); *addr += delta; return *addr }
+//go:norace
 func AddUint32(addr *uint32, delta uint32) uint32 { pt(addr); rt.RaceRW(addr); *addr += delta; return *addr }
+//go:norace
 func AddUint64(addr *uint64, delta uint64) uint64 { pt(addr); rt.RaceRW(addr); *addr += delta; return *addr }
 
+//go:norace
 func LoadInt32(addr *int32) int32    { pt(addr); rt.RaceRW(addr); return *addr }
+//go:norace
 func LoadInt64(addr *int64) int64    { pt(addr); rt.RaceRW(addr); return *addr }
+//go:norace
 func LoadUint32(addr *uint32) uint32 { pt(addr); rt.RaceRW(addr); return *addr }
+//go:norace
 func LoadUint64(addr *uint64) uint64 { pt(addr); rt.RaceRW(addr); return *addr }
 
+//go:norace
 func StoreInt32(addr *int32, v int32)    { pt(addr); rt.RaceRW(addr); *addr = v }
+//go:norace
 func StoreInt64(addr *int64, v int64)    { pt(addr); rt.RaceRW(addr); *addr = v }
+//go:norace
 func StoreUint32(addr *uint32, v uint32) { pt(addr); rt.RaceRW(addr); *addr = v }
+//go:norace
 func StoreUint64(addr *uint64, v uint64) { pt(addr); rt.RaceRW(addr); *addr = v }
 
+//go:norace
 func SwapInt32(addr *int32, v int32) int32     { pt(addr); rt.RaceRW(addr); o := *addr; *addr = v; return o }
+//go:norace
 func SwapInt64(addr *int64, v int64) int64     { pt(addr); rt.RaceRW(addr); o := *addr; *addr = v; return o }
+//go:norace
 func SwapUint32(addr *uint32, v uint32) uint32 { pt(addr); rt.RaceRW(addr); o := *addr; *addr = v; return o }
+//go:norace
 func SwapUint64(addr *uint64, v uint64) uint64 { pt(addr); rt.RaceRW(addr); o := *addr; *addr = v; return o }
 
+//go:norace
 func CompareAndSwapInt32(addr *int32, old, new int32) bool {
 	pt(addr)
 	rt.RaceRW(addr)
@@ -36,6 +54,7 @@ func CompareAndSwapInt32(addr *int32, old, new int32) bool {
 	}
 	return false
 }
+//go:norace
 func CompareAndSwapInt64(addr *int64, old, new int64) bool {
 	pt(addr)
 	rt.RaceRW(addr)
@@ -45,6 +64,7 @@ func CompareAndSwapInt64(addr *int64, old, new int64) bool {
 	}
 	return false
 }
+//go:norace
 func CompareAndSwapUint32(addr *uint32, old, new uint32) bool {
 	pt(addr)
 	rt.RaceRW(addr)
@@ -54,6 +74,7 @@ func CompareAndSwapUint32(addr *uint32, old, new uint32) bool {
 	}
 	return false
 }
+//go:norace
 func CompareAndSwapUint64(addr *uint64, old, new uint64) bool {
 	pt(addr)
 	rt.RaceRW(addr)
@@ -66,39 +87,61 @@ func CompareAndSwapUint64(addr *uint64, old, new uint64) bool {
 
 type Int32 struct{ v int32 }
 
+//go:norace
 func (x *Int32) Load() int32           { return LoadInt32(&x.v) }
+//go:norace
 func (x *Int32) Store(v int32)         { StoreInt32(&x.v, v) }
+//go:norace
 func (x *Int32) Add(d int32) int32     { return AddInt32(&x.v, d) }
+//go:norace
 func (x *Int32) Swap(v int32) int32    { return SwapInt32(&x.v, v) }
+//go:norace
 func (x *Int32) CompareAndSwap(o, n int32) bool { return CompareAndSwapInt32(&x.v, o, n) }
 
 type Int64 struct{ v int64 }
 
+//go:norace
 func (x *Int64) Load() int64           { return LoadInt64(&x.v) }
+//go:norace
 func (x *Int64) Store(v int64)         { StoreInt64(&x.v, v) }
+//go:norace
 func (x *Int64) Add(d int64) int64     { return AddInt64(&x.v, d) }
+//go:norace
 func (x *Int64) Swap(v int64) int64    { return SwapInt64(&x.v, v) }
+//go:norace
 func (x *Int64) CompareAndSwap(o, n int64) bool { return CompareAndSwapInt64(&x.v, o, n) }
 
 type Uint32 struct{ v uint32 }
 
+//go:norace
 func (x *Uint32) Load() uint32          { return LoadUint32(&x.v) }
+//go:norace
 func (x *Uint32) Store(v uint32)        { StoreUint32(&x.v, v) }
+//go:norace
 func (x *Uint32) Add(d uint32) uint32   { return AddUint32(&x.v, d) }
+//go:norace
 func (x *Uint32) Swap(v uint32) uint32  { return SwapUint32(&x.v, v) }
+//go:norace
 func (x *Uint32) CompareAndSwap(o, n uint32) bool { return CompareAndSwapUint32(&x.v, o, n) }
 
 type Uint64 struct{ v uint64 }
 
+//go:norace
 func (x *Uint64) Load() uint64          { return LoadUint64(&x.v) }
+//go:norace
 func (x *Uint64) Store(v uint64)        { StoreUint64(&x.v, v) }
+//go:norace
 func (x *Uint64) Add(d uint64) uint64   { return AddUint64(&x.v, d) }
+//go:norace
 func (x *Uint64) Swap(v uint64) uint64  { return SwapUint64(&x.v, v) }
+//go:norace
 func (x *Uint64) CompareAndSwap(o, n uint64) bool { return CompareAndSwapUint64(&x.v, o, n) }
 
 type Bool struct{ v int32 }
 
+//go:norace
 func (x *Bool) Load() bool { return LoadInt32(&x.v) != 0 }
+//go:norace
 func (x *Bool) Store(b bool) {
 	if b {
 		StoreInt32(&x.v, 1)
@@ -106,6 +149,7 @@ func (x *Bool) Store(b bool) {
 		StoreInt32(&x.v, 0)
 	}
 }
+//go:norace
 func (x *Bool) Swap(b bool) bool {
 	n := int32(0)
 	if b {
@@ -113,6 +157,7 @@ func (x *Bool) Swap(b bool) bool {
 	}
 	return SwapInt32(&x.v, n) != 0
 }
+//go:norace
 func (x *Bool) CompareAndSwap(o, n bool) bool {
 	oi, ni := int32(0), int32(0)
 	if o {
@@ -126,14 +171,20 @@ func (x *Bool) CompareAndSwap(o, n bool) bool {
 
 type Value struct{ v any }
 
+//go:norace
 func (x *Value) Load() any   { pt(x); rt.RaceRW(x); return x.v }
+//go:norace
 func (x *Value) Store(v any) { pt(x); rt.RaceRW(x); x.v = v }
 
 type Pointer[T any] struct{ p *T }
 
+//go:norace
 func (x *Pointer[T]) Load() *T   { pt(x); rt.RaceRW(x); return x.p }
+//go:norace
 func (x *Pointer[T]) Store(p *T) { pt(x); rt.RaceRW(x); x.p = p }
+//go:norace
 func (x *Pointer[T]) Swap(p *T) *T { pt(x); rt.RaceRW(x); o := x.p; x.p = p; return o }
+//go:norace
 func (x *Pointer[T]) CompareAndSwap(o, n *T) bool {
 	pt(x)
 	rt.RaceRW(x)
